@@ -504,6 +504,24 @@ def run_bytes_raw(cx: Ctx, tier: str):
         arg = bytearray(b) if i % 3 == 0 else b
         case_literal(cx, "bytes/raw", {"kind": "raw", "bytes": b.hex(), "bytearray": i % 3 == 0},
                      lambda arg=arg: pt.Bytes(arg), "c13-bytes raw " + hexs(b), b, True)
+    # the literal is the bytes given WHEN IT WAS WRITTEN: a bytearray changed afterwards (a reused scratch buffer, a buffer
+    # wiped by its owner) must not change it
+    for i, b in enumerate(ins[:400:3]):
+        if not b:
+            continue
+
+        def mk(b=b, i=i):
+            buf = bytearray(b)
+            e = pt.Bytes(buf)
+            buf[0] ^= 0xFF
+            if i % 2:
+                buf.extend(b"zz")
+            else:
+                for j in range(len(buf)):
+                    buf[j] = 0
+            return e
+        case_literal(cx, "bytes/raw-buffer-changed-later", {"kind": "raw", "bytes": b.hex(), "bytearray": True, "mutated_after": True},
+                     mk, None, b, True)
     # wrong argument types -> TealInputError (outside the model)
     for bad in [3, None, 1.5, ["a"], ("base16",)]:
         case_literal(cx, "bytes/type", {"kind": "type", "arg": repr(bad)}, lambda bad=bad: pt.Bytes(bad), None, None, False)
